@@ -286,7 +286,7 @@ type trustCfg struct{ paired, auto, allowWait bool }
 var trustCfgs = []trustCfg{{true, false, true}, {false, true, true}, {false, false, true}, {false, false, false}, {true, false, false}}
 
 var storedIDs = []string{"", "REMOTE-SHIP-ID"}
-var peerIDs = []string{`"REMOTE-SHIP-ID"`, `"OTHER-ID"`, `""`, "-", "5", "null", `"Dëmo-日本-😀"`}
+var peerIDs = []string{`"REMOTE-SHIP-ID"`, `"OTHER-ID"`, `""`, "-", "5", "null", `"Dëmo-日本-😀"`, `"remote-ship-id"`, `"Remote-Ship-Id"`, `" REMOTE-SHIP-ID"`, `"REMOTE-SHIP-I"`}
 
 // opsAlphabet are the non-message inputs of the systematic part.
 func opsAlphabet() []Step {
